@@ -681,4 +681,412 @@ theorem runTo_bracket {cfg : Cfg} {d : Dialect} {mc : Nat} {s s1 s' : MState} {p
   subst h1 h2 h3 h4 h5 h6 h7
   rfl
 
+/-! ### the big-step judgment -/
+
+theorem MState.ext8 {a b : MState} (h1 : a.valStack = b.valStack) (h2 : a.valLen = b.valLen)
+    (h3 : a.envStack = b.envStack) (h4 : a.envLen = b.envLen) (h5 : a.opStack = b.opStack)
+    (h6 : a.softforkStack = b.softforkStack) (h7 : a.allocatorStack = b.allocatorStack) (h8 : a.ctr = b.ctr) :
+    a = b := by
+  cases a; cases b; simp_all
+
+/-- `s` with the value `v` pushed and the counters `c` -/
+def MState.pushed (s : MState) (v : Val) (c : Ctr) : MState :=
+  { s with valStack := v :: s.valStack, valLen := s.valLen + 1, ctr := c }
+
+/-- `effective_max_cost` as a function of the softfork stack -/
+def sfMax (mc : Nat) : List SoftforkGuard → Nat
+  | sf :: _ => sf.expectedCost
+  | [] => mc
+
+/-- the operator set in force (`current_extensions`) -/
+def sfExt : List SoftforkGuard → OperatorSet
+  | sf :: _ => sf.operatorSet
+  | [] => .Default
+
+theorem effMax_eq (mc : Nat) (s : MState) : effMax mc s = sfMax mc s.softforkStack := by
+  unfold effMax sfMax; cases s.softforkStack <;> rfl
+
+/-- **Big-step judgment.**  `Evals … sfs vl el prog env c0 cost0 v cost1 c1`: from *every* machine
+state whose softfork stack is `sfs`, whose value / environment stack counters are `vl` / `el` and
+whose allocator counters are `c0` — whatever lies on the stacks — `eval_pair prog env` succeeds and
+the loop, continued at accumulated cost `cost0 + (cost returned by eval_pair)`, reaches after
+finitely many iterations the same state with `v` pushed, counters `c1`, at accumulated cost `cost1`
+(every `cost > effective_max_cost` check on the way passed; the check at `cost1` is the caller's). -/
+def Evals (cfg : Cfg) (d : Dialect) (mc : Nat) (sfs : List SoftforkGuard) (vl el : Nat) (prog env : Val)
+    (c0 : Ctr) (cost0 : Nat) (v : Val) (cost1 : Nat) (c1 : Ctr) : Prop :=
+  ∀ s : MState, s.softforkStack = sfs → s.valLen = vl → s.envLen = el → s.ctr = c0 →
+    ∃ k s1 n, evalPair cfg d s prog env = .ok (k, s1) ∧
+      Steps cfg d mc n s1 (cost0 + k) (s.pushed v c1) cost1
+
+/-- what `eval_pair` looks up for an atom program -/
+def pathLookup (cfg : Cfg) (b : Bytes) (inl : Bool) (env : Val) : Except Err (Nat × Val) :=
+  if cfg.fastpath then
+    match node (.atom b inl) with
+    | .buffer buf => traversePath buf env
+    | .u32 val => traversePathFast val env
+    | .pair _ _ => .error (.InvalidOpArg "expected atom, got pair")
+  else traversePath b env
+
+/-- an atom is an environment look-up -/
+theorem Evals.path {cfg : Cfg} {d : Dialect} {mc : Nat} {sfs : List SoftforkGuard} {vl el : Nat}
+    {b : Bytes} {inl : Bool} {env : Val} {c0 : Ctr} {cost0 k : Nat} {v : Val}
+    (h : pathLookup cfg b inl env = .ok (k, v)) (hvl : vl ≠ Gen.STACK_SIZE_LIMIT) :
+    Evals cfg d mc sfs vl el (.atom b inl) env c0 cost0 v (cost0 + k) c0 := by
+  intro s _ hv _ hc
+  refine ⟨k, s.pushed v c0, 0, ?_, Steps.refl _ _ _ _ _⟩
+  show (do let r ← liftE (pathLookup cfg b inl env); let s' ← s.push r.2; pure (r.1, s')) = _
+  rw [h]
+  simp only [liftE, bind, Except.bind, push_ok v (hv ▸ hvl), pure, Except.pure, MState.pushed, hc]
+
+/-- `(q . x)` -/
+theorem Evals.quote {cfg : Cfg} {d : Dialect} {mc : Nat} {sfs : List SoftforkGuard} {vl el : Nat}
+    {ob : Bytes} {oi : Bool} {x env : Val} {c0 : Ctr} {cost0 : Nat}
+    (hq : smallNumber (.atom ob oi) = some d.quoteKw) (hvl : vl ≠ Gen.STACK_SIZE_LIMIT) :
+    Evals cfg d mc sfs vl el (.pair (.atom ob oi) x) env c0 cost0 x (cost0 + Gen.QUOTE_COST) c0 := by
+  intro s _ hv _ hc
+  refine ⟨Gen.QUOTE_COST, s.pushed x c0, 0, ?_, Steps.refl _ _ _ _ _⟩
+  simp only [evalPair, evalOpAtom, hq, beq_self_eq_true, if_true, bind, Except.bind, push_ok x (hv ▸ hvl),
+    pure, Except.pure, MState.pushed, hc]
+
+/-! ### forward equations for the operations -/
+
+/-- the terminator of an operand list -/
+def argTerm : Val → Val
+  | .pair _ r => argTerm r
+  | v => v
+
+theorem pushOperands_fwd : ∀ (args : Val) (s : MState),
+    s.valLen + (argList args).length ≤ Gen.STACK_SIZE_LIMIT →
+    pushOperands args s = .ok (argTerm args,
+      { s with opStack := List.replicate (argList args).length .SwapEval ++ s.opStack,
+               valStack := (argList args).reverse ++ s.valStack,
+               valLen := s.valLen + (argList args).length }) := by
+  intro args
+  induction args with
+  | atom b i => intro s _; rfl
+  | pair f r _ ihr =>
+    intro s h
+    simp only [argList, List.length_cons] at h
+    have hl : s.valLen ≠ Gen.STACK_SIZE_LIMIT := by omega
+    have hp : (s.pushOp .SwapEval).push f =
+        .ok { s with opStack := .SwapEval :: s.opStack, valStack := f :: s.valStack, valLen := s.valLen + 1 } :=
+      push_ok (s := s.pushOp .SwapEval) f hl
+    simp only [pushOperands, hp, bind, Except.bind]
+    rw [ihr _ (by simp only []; omega)]
+    simp only [argTerm, argList, List.length_cons, List.reverse_cons, List.append_assoc, List.cons_append,
+      List.nil_append, List.replicate_succ', Except.ok.injEq, Prod.mk.injEq, true_and]
+    apply MState.ext8 <;> (try rfl)
+    simp only []; omega
+
+/-- `eval_op_atom` on a non-quote operator with a nil-terminated operand list -/
+theorem evalOpAtom_fwd {d : Dialect} {s : MState} {o args env : Val} {tb : Bool}
+    (hq : smallNumber o ≠ some d.quoteKw) (hterm : argTerm args = .atom [] tb)
+    (hvl : s.valLen + (argList args).length + 2 ≤ Gen.STACK_SIZE_LIMIT)
+    (hel : s.envLen ≠ Gen.STACK_SIZE_LIMIT) :
+    evalOpAtom d s o args env = .ok (Gen.OP_COST,
+      { s with opStack := List.replicate (argList args).length .SwapEval ++ .Apply ::
+                 (if d.gcCandidate o then .RestoreAllocator :: s.opStack else s.opStack),
+               valStack := Val.nil :: ((argList args).reverse ++ o :: s.valStack),
+               valLen := s.valLen + (argList args).length + 2,
+               envStack := env :: s.envStack, envLen := s.envLen + 1,
+               allocatorStack := if d.gcCandidate o then s.allocatorStack + 1 else s.allocatorStack }) := by
+  unfold evalOpAtom
+  have hq' : (smallNumber o == some d.quoteKw) = false := by simpa using hq
+  simp only [hq', Bool.false_eq_true, if_false]
+  cases hgc : d.gcCandidate o
+  all_goals
+    simp only [if_true, Bool.false_eq_true, if_false]
+    rw [pushEnv_ok env (by simpa [MState.pushOp] using hel)]
+    simp only [bind, Except.bind]
+    rw [push_ok (s := MState.pushOp _ _) o (by simp only [MState.pushOp]; omega)]
+    simp only []
+    rw [pushOperands_fwd args _ (by simp only [MState.pushOp]; omega)]
+    simp only [hterm, List.length_nil, bne_self_eq_false, Bool.false_eq_true, if_false]
+    rw [push_ok Val.nil (by simp only [MState.pushOp]; omega)]
+    simp only [pure, Except.pure, Except.ok.injEq, Prod.mk.injEq, true_and]
+    apply MState.ext8 <;> (try rfl)
+    simp only [MState.pushOp]; omega
+
+theorem swapEvalOp_fwd {cfg : Cfg} {d : Dialect} {s : MState} {acc a : Val} {W : List Val} {env : Val}
+    {E : List Val} (hv : s.valStack = acc :: a :: W) (he : s.envStack = env :: E)
+    (hl : s.valLen - 1 - 1 ≠ Gen.STACK_SIZE_LIMIT) :
+    swapEvalOp cfg d s =
+      evalPair cfg d ({ s with valStack := acc :: W, valLen := s.valLen - 1 - 1 + 1 }.pushOp .Cons) a env := by
+  unfold swapEvalOp
+  rw [pop_cons hv]
+  simp only [bind, Except.bind]
+  rw [pop_cons (s := { s with valStack := a :: W, valLen := s.valLen - 1 }) rfl]
+  have hl' := beq_eq_false_iff_ne.2 hl
+  simp only [he, MState.push, hl', Bool.false_eq_true, if_false]
+
+theorem consOp_fwd {s : MState} {v1 v2 : Val} {W : List Val} {c' : Ctr} (hv : s.valStack = v1 :: v2 :: W)
+    (hp : s.ctr.newPair = .ok c') (hl : s.valLen - 1 - 1 ≠ Gen.STACK_SIZE_LIMIT) :
+    consOp s = .ok (0, { s with valStack := .pair v1 v2 :: W, valLen := s.valLen - 1 - 1 + 1, ctr := c' }) := by
+  unfold consOp
+  rw [pop_cons hv]
+  simp only [bind, Except.bind]
+  rw [pop_cons (s := { s with valStack := v2 :: W, valLen := s.valLen - 1 }) rfl]
+  have hl' := beq_eq_false_iff_ne.2 hl
+  simp only [allocPair, hp, liftE, MState.push, hl', Bool.false_eq_true, if_false]
+  rfl
+
+/-- `apply_op` on an ordinary operator -/
+theorem applyOp_fwd_op {cfg : Cfg} {d : Dialect} {s : MState} {al o : Val} {W : List Val} {e0 : Val}
+    {E : List Val} {cc m oc : Nat} {v : Val} {c' : Ctr}
+    (hv : s.valStack = al :: o :: W) (he : s.envStack = e0 :: E)
+    (ha : smallNumber o ≠ some d.applyKw) (hs : smallNumber o ≠ some d.softforkKw)
+    (hop : d.op o al m (sfExt s.softforkStack) s.ctr = some (.ok (oc, v, c')))
+    (hl : s.valLen - 1 - 1 ≠ Gen.STACK_SIZE_LIMIT) :
+    applyOp cfg d s cc m = .ok (oc, { s with valStack := v :: W, valLen := s.valLen - 1 - 1 + 1,
+                                              envStack := E, envLen := s.envLen - 1, ctr := c' }) := by
+  unfold applyOp
+  rw [pop_cons hv]
+  simp only [bind, Except.bind]
+  rw [pop_cons (s := { s with valStack := o :: W, valLen := s.valLen - 1 }) rfl]
+  have ha' : (smallNumber o == some d.applyKw) = false := by simpa using ha
+  have hs' : (smallNumber o == some d.softforkKw) = false := by simpa using hs
+  simp only [he, ha', hs', Bool.false_eq_true, if_false]
+  have hl' := beq_eq_false_iff_ne.2 hl
+  cases hsf : s.softforkStack with
+  | nil =>
+    rw [hsf] at hop
+    simp only [sfExt] at hop
+    simp only [hop, MState.push, hl', Bool.false_eq_true, if_false]
+    rfl
+  | cons g gs =>
+    rw [hsf] at hop
+    simp only [sfExt] at hop
+    simp only [hop, MState.push, hl', Bool.false_eq_true, if_false]
+    rfl
+
+/-- `apply_op` on the apply keyword -/
+theorem applyOp_fwd_apply {cfg : Cfg} {d : Dialect} {s : MState} {al o : Val} {W : List Val} {e0 : Val}
+    {E : List Val} {cc m : Nat} {p e : Val}
+    (hv : s.valStack = al :: o :: W) (he : s.envStack = e0 :: E)
+    (ha : smallNumber o = some d.applyKw) (hg : getArgs2 al "apply" = .ok (p, e)) :
+    applyOp cfg d s cc m =
+      (evalPair cfg d { s with valStack := W, valLen := s.valLen - 1 - 1, envStack := E, envLen := s.envLen - 1 }
+        p e >>= fun r => pure (r.1 + Gen.APPLY_COST, r.2)) := by
+  unfold applyOp
+  rw [pop_cons hv]
+  simp only [bind, Except.bind]
+  rw [pop_cons (s := { s with valStack := o :: W, valLen := s.valLen - 1 }) rfl]
+  simp only [he, ha, beq_self_eq_true, if_true, hg, liftE]
+
+/-! ### operand lists: right-to-left evaluation through `SwapEval` / `Cons` -/
+
+/-- `EvalArgs … el env vl args c cost al cost' c'`: the operand list `args` (programs), evaluated from
+the last operand to the first in environment `env`, gives the list of values `al`; `vl` is the value
+stack counter below the accumulated list, `el` the environment stack counter (with `env` pushed).
+Each operand costs one `SwapEval` iteration (cost check), its own evaluation, and one `Cons`
+iteration (cost check, one pair allocated). -/
+inductive EvalArgs (cfg : Cfg) (d : Dialect) (mc : Nat) (sfs : List SoftforkGuard) (el : Nat) (env : Val) :
+    (vl : Nat) → (args : Val) → Ctr → Nat → Val → Nat → Ctr → Prop
+  | nil (vl : Nat) (b : Bytes) (i : Bool) (c : Ctr) (cost : Nat) :
+      EvalArgs cfg d mc sfs el env vl (.atom b i) c cost Val.nil cost c
+  | cons {vl : Nat} {a rest : Val} {c : Ctr} {cost : Nat} {acc : Val} {cost1 : Nat} {c1 : Ctr} {v : Val}
+      {cost2 : Nat} {c2 c3 : Ctr} :
+      EvalArgs cfg d mc sfs el env (vl + 1) rest c cost acc cost1 c1 →
+      cost1 ≤ sfMax mc sfs →
+      vl ≠ Gen.STACK_SIZE_LIMIT →
+      Evals cfg d mc sfs (vl + 1) el a env c1 cost1 v cost2 c2 →
+      cost2 ≤ sfMax mc sfs →
+      c2.newPair = .ok c3 →
+      EvalArgs cfg d mc sfs el env vl (.pair a rest) c cost (.pair v acc) cost2 c3
+
+theorem Steps.one' {cfg : Cfg} {d : Dialect} {mc : Nat} {s : MState} {cost em : Nat} {op : Operation}
+    {ops : List Operation} {c : Nat} {s' : MState} (hem : effMax mc s = em)
+    (hc : cost ≤ em) (hop : s.opStack = op :: ops)
+    (hst : stepOp cfg d { s with opStack := ops } op cost em = .ok (c, s')) :
+    Steps cfg d mc 1 s cost s' (cost + c) := by
+  subst hem; exact Steps.one hc hop hst
+
+theorem evalArgs_steps {cfg : Cfg} {d : Dialect} {mc : Nat} {sfs : List SoftforkGuard} {el : Nat} {env : Val}
+    {vl : Nat} {args : Val} {c : Ctr} {cost : Nat} {al : Val} {cost' : Nat} {c' : Ctr}
+    (h : EvalArgs cfg d mc sfs el env vl args c cost al cost' c') :
+    ∀ (s : MState) (W : List Val) (O : List Operation) (E : List Val),
+      s.valStack = Val.nil :: ((argList args).reverse ++ W) →
+      s.valLen = vl + (argList args).length + 1 →
+      s.opStack = List.replicate (argList args).length .SwapEval ++ O →
+      s.envStack = env :: E → s.envLen = el → s.softforkStack = sfs → s.ctr = c →
+      ∃ m, Steps cfg d mc m s cost { s with valStack := al :: W, valLen := vl + 1, opStack := O, ctr := c' } cost' := by
+  induction h with
+  | nil vl b i c cost =>
+    intro s W O E hv hvl hop _ _ _ hc
+    refine ⟨0, Steps.cast (Steps.refl _ _ _ _ _) ?_ rfl⟩
+    simp only [argList, List.reverse_nil, List.nil_append, List.length_nil, List.replicate_zero, Nat.add_zero]
+      at hv hvl hop
+    apply MState.ext8 <;> (try rfl) <;> assumption
+  | @cons vl a rest c cost acc cost1 c1 v cost2 c2 c3 _ hc1 hvl hE hc2 hp ih =>
+    intro s W O E hv hlen hop he hel hsf hc
+    simp only [argList, List.reverse_cons, List.append_assoc, List.cons_append, List.nil_append,
+      List.length_cons, List.replicate_succ'] at hv hlen hop
+    obtain ⟨m1, st1⟩ := ih s (a :: W) (.SwapEval :: O) E hv (by omega) hop he hel hsf hc
+    -- the SwapEval iteration
+    let sa : MState := { s with valStack := acc :: a :: W, valLen := vl + 1 + 1, opStack := .SwapEval :: O, ctr := c1 }
+    let t : MState := { sa with opStack := .Cons :: O, valStack := acc :: W, valLen := vl + 1 + 1 - 1 - 1 + 1 }
+    obtain ⟨k, t1, n, hev, st3⟩ := hE t hsf (by simp only [t]; omega) hel rfl
+    have st2 : Steps cfg d mc 1 sa cost1 t1 (cost1 + k) := by
+      refine Steps.one' (ops := O) (by rw [effMax_eq]; exact congrArg _ hsf) hc1 rfl ?_
+      simp only [stepOp]
+      rw [swapEvalOp_fwd (s := { sa with opStack := O }) (acc := acc) (a := a) (W := W) (env := env) (E := E)
+        rfl he (by simp only [sa]; omega)]
+      exact hev
+    -- the Cons iteration
+    have st4 : Steps cfg d mc 1 (t.pushed v c2) cost2
+        { s with valStack := .pair v acc :: W, valLen := vl + 1, opStack := O, ctr := c3 } (cost2 + 0) := by
+      refine Steps.one' (ops := O) (by rw [effMax_eq]; exact congrArg _ hsf) hc2 rfl ?_
+      simp only [stepOp]
+      rw [consOp_fwd (s := { t.pushed v c2 with opStack := O }) (v1 := v) (v2 := acc) (W := W) (c' := c3) rfl hp
+        (by simp only [MState.pushed, t]; omega)]
+      simp only [Except.ok.injEq, Prod.mk.injEq, true_and]
+      apply MState.ext8 <;> first | rfl | (simp only [MState.pushed, t]; omega)
+    exact ⟨_, ((st1.trans st2).trans st3).trans st4⟩
+
+/-! ### operators and `a` -/
+
+/-- the state after `eval_op_atom` (non-quote operator `o`, operands `args`) -/
+def opEntry (d : Dialect) (s : MState) (o args env : Val) : MState :=
+  { s with opStack := List.replicate (argList args).length .SwapEval ++ .Apply ::
+             (if d.gcCandidate o then .RestoreAllocator :: s.opStack else s.opStack),
+           valStack := Val.nil :: ((argList args).reverse ++ o :: s.valStack),
+           valLen := s.valLen + (argList args).length + 2,
+           envStack := env :: s.envStack, envLen := s.envLen + 1,
+           allocatorStack := if d.gcCandidate o then s.allocatorStack + 1 else s.allocatorStack }
+
+/-- the state after the `Apply` operation of a call pushed its value: possibly a checkpoint to pop -/
+def opExit (gc : Bool) (s : MState) (v : Val) (c : Ctr) : MState :=
+  { s.pushed v c with opStack := if gc then .RestoreAllocator :: s.opStack else s.opStack,
+                      allocatorStack := if gc then s.allocatorStack + 1 else s.allocatorStack }
+
+theorem opExit_steps (cfg : Cfg) (d : Dialect) (mc : Nat) (gc : Bool) (s : MState) (v : Val) (c : Ctr) (cost : Nat)
+    (hc : cost ≤ sfMax mc s.softforkStack) :
+    ∃ n, Steps cfg d mc n (opExit gc s v c) cost (s.pushed v c) cost := by
+  cases gc
+  · exact ⟨0, Steps.cast (Steps.refl _ _ _ _ _) rfl rfl⟩
+  · refine ⟨1, Steps.cast (Steps.one' (ops := s.opStack) (em := sfMax mc s.softforkStack) (effMax_eq _ _) hc rfl
+      (c := 0) (s' := s.pushed v c) ?_) rfl rfl⟩
+    simp only [stepOp, opExit, MState.pushed, if_true, Nat.add_one_ne_zero, beq_iff_eq, if_false,
+      List.isEmpty_cons, Bool.false_eq_true, Nat.add_sub_cancel]
+
+/-- the state in which the `Apply` operation of a call runs: the operand values `al` and the operator on
+the value stack -/
+def applyReady (gc : Bool) (s : MState) (o al env : Val) (c1 : Ctr) : MState :=
+  { opExit gc s al c1 with
+      opStack := .Apply :: (opExit gc s al c1).opStack,
+      valStack := al :: o :: s.valStack, valLen := s.valLen + 1 + 1,
+      envStack := env :: s.envStack, envLen := s.envLen + 1 }
+
+/-- the operands of a call, then the machine is about to run `Apply` -/
+theorem opEntry_steps {cfg : Cfg} {d : Dialect} {mc : Nat} {sfs : List SoftforkGuard} {env : Val}
+    {args : Val} {c0 : Ctr} {cost : Nat} {al : Val} {cost1 : Nat} {c1 : Ctr} (s : MState) (o : Val)
+    (hargs : EvalArgs cfg d mc sfs (s.envLen + 1) env (s.valLen + 1) args c0 cost al cost1 c1)
+    (hsf : s.softforkStack = sfs) (hc : s.ctr = c0) :
+    ∃ m, Steps cfg d mc m (opEntry d s o args env) cost (applyReady (d.gcCandidate o) s o al env c1) cost1 := by
+  obtain ⟨m1, st1⟩ := evalArgs_steps hargs (opEntry d s o args env) (o :: s.valStack)
+    (.Apply :: (if d.gcCandidate o then .RestoreAllocator :: s.opStack else s.opStack))
+    s.envStack rfl (by simp only [opEntry]; omega) rfl rfl rfl hsf hc
+  exact ⟨m1, Steps.cast st1 (by apply MState.ext8 <;> rfl) rfl⟩
+
+/-- **An operator call** `(o a₁ … aₙ)`: `OP_COST`, the operands right to left, then (cost check) the
+operator with the remaining budget; if the operator is a GC candidate one more iteration (cost check)
+pops the checkpoint. -/
+theorem Evals.op {cfg : Cfg} {d : Dialect} {mc : Nat} {sfs : List SoftforkGuard} {vl el : Nat}
+    {ob : Bytes} {oi : Bool} {args env : Val} {c0 : Ctr} {cost0 : Nat} {al : Val} {cost1 : Nat} {c1 : Ctr}
+    {oc : Nat} {v : Val} {c2 : Ctr} {tb : Bool}
+    (hq : smallNumber (.atom ob oi) ≠ some d.quoteKw)
+    (ha : smallNumber (.atom ob oi) ≠ some d.applyKw)
+    (hs : smallNumber (.atom ob oi) ≠ some d.softforkKw)
+    (hterm : argTerm args = .atom [] tb)
+    (hvl : vl + (argList args).length + 2 ≤ Gen.STACK_SIZE_LIMIT)
+    (hel : el ≠ Gen.STACK_SIZE_LIMIT)
+    (hargs : EvalArgs cfg d mc sfs (el + 1) env (vl + 1) args c0 (cost0 + Gen.OP_COST) al cost1 c1)
+    (hc1 : cost1 ≤ sfMax mc sfs)
+    (hop : d.op (.atom ob oi) al (sfMax mc sfs - cost1) (sfExt sfs) c1 = some (.ok (oc, v, c2)))
+    (hc2 : cost1 + oc ≤ sfMax mc sfs) :
+    Evals cfg d mc sfs vl el (.pair (.atom ob oi) args) env c0 cost0 v (cost1 + oc) c2 := by
+  intro s hsf hv he hc
+  subst hv he
+  have hev : evalPair cfg d s (.pair (.atom ob oi) args) env = .ok (Gen.OP_COST, opEntry d s (.atom ob oi) args env) := by
+    simp only [evalPair]; exact evalOpAtom_fwd hq hterm hvl hel
+  obtain ⟨m1, st1⟩ := opEntry_steps s (.atom ob oi) hargs hsf hc
+  have st2 : Steps cfg d mc 1 (applyReady (d.gcCandidate (.atom ob oi)) s (.atom ob oi) al env c1) cost1
+      (opExit (d.gcCandidate (.atom ob oi)) s v c2) (cost1 + oc) := by
+    refine Steps.one' (ops := (opExit (d.gcCandidate (.atom ob oi)) s al c1).opStack)
+      (by rw [effMax_eq]; exact congrArg _ hsf) hc1 rfl ?_
+    simp only [stepOp]
+    rw [applyOp_fwd_op (al := al) (o := .atom ob oi) (W := s.valStack) (e0 := env) (E := s.envStack)
+      (oc := oc) (v := v) (c' := c2) rfl rfl ha hs
+      (by simp only [applyReady, opExit, MState.pushed, hsf]; exact hop)
+      (by simp only [applyReady]; omega)]
+    simp only [Except.ok.injEq, Prod.mk.injEq, true_and]
+    apply MState.ext8 <;> first | rfl | (simp only [applyReady, opExit, MState.pushed]; omega)
+  obtain ⟨m3, st3⟩ := opExit_steps cfg d mc (d.gcCandidate (.atom ob oi)) s v c2 (cost1 + oc) (hsf ▸ hc2)
+  exact ⟨_, _, _, hev, (st1.trans st2).trans st3⟩
+
+/-- **`(a P E)`**: `OP_COST`, the two operands, then (cost check) `APPLY_COST` and the evaluation of the
+value of `P` in the environment the value of `E` (and a final cost check if `a` is a GC candidate). -/
+theorem Evals.apply {cfg : Cfg} {d : Dialect} {mc : Nat} {sfs : List SoftforkGuard} {vl el : Nat}
+    {ob : Bytes} {oi : Bool} {args env : Val} {c0 : Ctr} {cost0 : Nat} {al : Val} {cost1 : Nat} {c1 : Ctr}
+    {p e v : Val} {cost2 : Nat} {c2 : Ctr} {tb : Bool}
+    (hq : smallNumber (.atom ob oi) ≠ some d.quoteKw)
+    (ha : smallNumber (.atom ob oi) = some d.applyKw)
+    (hterm : argTerm args = .atom [] tb)
+    (hvl : vl + (argList args).length + 2 ≤ Gen.STACK_SIZE_LIMIT)
+    (hel : el ≠ Gen.STACK_SIZE_LIMIT)
+    (hargs : EvalArgs cfg d mc sfs (el + 1) env (vl + 1) args c0 (cost0 + Gen.OP_COST) al cost1 c1)
+    (hc1 : cost1 ≤ sfMax mc sfs)
+    (hg : getArgs2 al "apply" = .ok (p, e))
+    (hbody : Evals cfg d mc sfs vl el p e c1 (cost1 + Gen.APPLY_COST) v cost2 c2)
+    (hc2 : cost2 ≤ sfMax mc sfs) :
+    Evals cfg d mc sfs vl el (.pair (.atom ob oi) args) env c0 cost0 v cost2 c2 := by
+  intro s hsf hv he hc
+  subst hv he
+  have hev : evalPair cfg d s (.pair (.atom ob oi) args) env = .ok (Gen.OP_COST, opEntry d s (.atom ob oi) args env) := by
+    simp only [evalPair]; exact evalOpAtom_fwd hq hterm hvl hel
+  obtain ⟨m1, st1⟩ := opEntry_steps s (.atom ob oi) hargs hsf hc
+  -- the state in which the body is evaluated: `s` with possibly a checkpoint to pop afterwards
+  let gc := d.gcCandidate (.atom ob oi)
+  let S3 : MState := { s with opStack := if gc then .RestoreAllocator :: s.opStack else s.opStack,
+                              allocatorStack := if gc then s.allocatorStack + 1 else s.allocatorStack, ctr := c1 }
+  obtain ⟨k, t1, n, hev2, st3⟩ := hbody S3 hsf rfl rfl rfl
+  have st2 : Steps cfg d mc 1 (applyReady gc s (.atom ob oi) al env c1) cost1 t1 (cost1 + (k + Gen.APPLY_COST)) := by
+    refine Steps.one' (ops := (opExit gc s al c1).opStack)
+      (by rw [effMax_eq]; exact congrArg _ hsf) hc1 rfl ?_
+    simp only [stepOp]
+    rw [applyOp_fwd_apply (al := al) (o := .atom ob oi) (W := s.valStack) (e0 := env) (E := s.envStack)
+      (p := p) (e := e) rfl rfl ha hg]
+    refine (congrArg (fun st => (evalPair cfg d st p e >>= fun r => pure (r.1 + Gen.APPLY_COST, r.2)))
+      (?_ : _ = S3)).trans ?_
+    · apply MState.ext8 <;> first | rfl | (simp only [S3, applyReady]; omega)
+    · simp only [hev2, bind, Except.bind, pure, Except.pure]
+  have hS' : S3.pushed v c2 = opExit gc s v c2 := by
+    apply MState.ext8 <;> rfl
+  rw [hS'] at st3
+  have e1 : cost1 + (k + Gen.APPLY_COST) = cost1 + Gen.APPLY_COST + k := by omega
+  rw [e1] at st2
+  obtain ⟨m4, st4⟩ := opExit_steps cfg d mc gc s v c2 cost2 (hsf ▸ hc2)
+  exact ⟨_, _, _, hev, ((st1.trans st2).trans st3).trans st4⟩
+
+/-! ### whole runs -/
+
+/-- a big-step evaluation from the initial state is a successful `run_program` (with enough fuel) -/
+theorem runProgram_of_Evals {cfg : Cfg} {d : Dialect} {c0 c : Ctr} {prog env : Val} {mc0 : Nat} {v : Val}
+    {cost1 : Nat} {c1 : Ctr} (hg : c0.addGhostAtom 1 = .ok c)
+    (h : Evals cfg d (if mc0 == 0 then U64_MAX else mc0) [] 0 0 prog env c 0 v cost1 c1)
+    (hc : cost1 ≤ (if mc0 == 0 then U64_MAX else mc0)) :
+    ∃ fuel0, ∀ fuel, fuel0 ≤ fuel → runProgram cfg d fuel c0 prog env mc0 = some (.ok (cost1, v, c1)) := by
+  obtain ⟨k, s1, n, hev, hst⟩ := h { ctr := c } rfl rfl rfl rfl
+  refine ⟨n + 1, fun fuel hf => ?_⟩
+  obtain ⟨f, rfl⟩ : ∃ f, fuel = (f + 1) + n := ⟨fuel - n - 1, by omega⟩
+  unfold runProgram
+  simp only [hg, hev]
+  rw [Nat.zero_add] at hst
+  rw [hst (f + 1), runLoop_succ]
+  unfold loopBody
+  have : ¬ cost1 > effMax (if mc0 == 0 then U64_MAX else mc0) (MState.pushed { ctr := c } v c1) := by
+    simp only [effMax, MState.pushed]; omega
+  rw [if_neg this]
+  rfl
+
 end Clvm.Interp
